@@ -11,9 +11,10 @@ func init() {
 			"(5) destructive file operations on database files are exactly the classified sites; " +
 			"(6) recovery hands every recovered memtable to the read path and restores the sequence counter from the replay maximum; (7) the newest log file is reused for appending only behind a clean entry-boundary scan (so that writes acknowledged after a recovery are themselves recoverable); no read after the first of a record can leave as a clean io.EOF; (8) shared with C03/C09: the batch pre-validation uses writeRecord's own size formula and the buffer provision covers it; fragment writer and reader agree on chunk boundaries. " +
 			"Added after blind round 5: the log file is written through the buffered writer only and record writers never flush; error classes of the replay loops distinguish == from errors.Is (a wrapped unexpected EOF must still end the log); recovery's last table stays mutable; precedence slices grow at the end only. " +
-			"Added after blind round 6: recovery's limits (MaxMemTables, MemTableSize) are copied unchanged from the configuration and no sequence number is excluded, so recovery accepts every log the engine wrote within its limits.",
+			"Added after blind round 6: recovery's limits (MaxMemTables, MemTableSize) are copied unchanged from the configuration and no sequence number is excluded, so recovery accepts every log the engine wrote within its limits. " +
+			"Added after blind round 8: replay mirrors the live apply: MemTable.ProcessWALEntry is evaluated for every entry type the log accepts — put → Put, delete → Delete, merge → no effect, and none of them fails.",
 		NotDecided: "the state at arbitrary stop instants, torn writes, directory fsync, repeated crash/recover cycles — all need execution under fault injection.",
-		Rules:      []func(*Ctx, *Reporter){ruleStWriteAhead, ruleWalSyncBeforeAck, ruleStRotation, ruleStRecovery, ruleSstFinish, ruleDestructiveOps, ruleStFlushPublish, ruleReuseValidatesTail, ruleWalBatch, ruleWalFragmentation, ruleRecoveryLastTableMutable, ruleWalFileWriters, ruleWalErrorClasses, subRules(ruleLayerOrder, "newest-is-last"), ruleRecoveryLimitsAreConfigured},
+		Rules:      []func(*Ctx, *Reporter){ruleStWriteAhead, ruleWalSyncBeforeAck, ruleStRotation, ruleStRecovery, ruleSstFinish, ruleDestructiveOps, ruleStFlushPublish, ruleReuseValidatesTail, ruleWalBatch, ruleWalFragmentation, ruleRecoveryLastTableMutable, ruleWalFileWriters, ruleWalErrorClasses, subRules(ruleLayerOrder, "newest-is-last"), ruleRecoveryLimitsAreConfigured, ruleReplayMirrorsLiveApply},
 	})
 	register(&PropertyDef{
 		ID: "C03",
@@ -24,9 +25,10 @@ func init() {
 			"(5) Buffer.Put/Delete copy key and value before storing them (capture at call time) and assign the same map under string(key) (last operation wins); Rollback clears the buffer before releasing the lock; a successful transactional Put/Delete has buffered exactly that operation; (6) shared with C02/C10: a log file is reused for appending only behind a clean tail (a torn batch is never followed by new commits in the same file). " +
 			"Added after blind round 5: the log file is written through the buffered writer only and the record writers never flush or sync on their own (a batch reaches the file in one piece). " +
 			"Added after blind round 6: (a) the transaction buffer keeps no state derived from the operations map that Put/Delete/Clear do not also store to (a cached sorted view would make scans and the commit batch use superseded operations); (b) Buffer.Get returns a copy of the buffered value (tree defect, repaired: bda0e66); (c) batch-is-recognisable-at-replay: the log has no batch frame, a stop inside the final log write recovers a strict subset of a committed transaction — violated on this tree, recorded as an open finding with a demo. " +
-			"Added after blind round 7: a table is sealed only where a new active table is installed afterwards (reviewed callers of SetImmutable; MemTable.Put drops writes into a sealed table silently); ErrWALClosed is answered only on status == WALStatusClosed (a rotating log must answer ErrWALRotating, the only error the storage layer retries).",
+			"Added after blind round 7: a table is sealed only where a new active table is installed afterwards (reviewed callers of SetImmutable; MemTable.Put drops writes into a sealed table silently); ErrWALClosed is answered only on status == WALStatusClosed (a rotating log must answer ErrWALRotating, the only error the storage layer retries). " +
+			"Added after blind round 8: the merging iterator's Next advances children with their own Next only (no Seek to a computed successor key).",
 		NotDecided: "atomicity across a crash (the log format has no batch frame: a torn batch cannot be recognised at replay — design remark, needs a crash to observe); concurrent-reader interleavings.",
-		Rules:      []func(*Ctx, *Reporter){ruleTxBufferIsolation, ruleTxApplyInside, ruleStSingleWriter, ruleStEffectOnce, ruleWalBatch, ruleTxBufferCapture, ruleTxRollbackClears, ruleTxOpsBuffered, ruleReuseValidatesTail, ruleWalFileWriters, ruleBufferViewsFollowMap, ruleBatchFrame, ruleAccessorsReturnCopies, ruleSealOnlyWhenReplaced, ruleClosedMeansClosed},
+		Rules:      []func(*Ctx, *Reporter){ruleTxBufferIsolation, ruleTxApplyInside, ruleStSingleWriter, ruleStEffectOnce, ruleWalBatch, ruleTxBufferCapture, ruleTxRollbackClears, ruleTxOpsBuffered, ruleReuseValidatesTail, ruleWalFileWriters, ruleBufferViewsFollowMap, ruleBatchFrame, ruleAccessorsReturnCopies, ruleSealOnlyWhenReplaced, ruleClosedMeansClosed, ruleMergeNextStepsOnly},
 	})
 	register(&PropertyDef{
 		ID: "C06",
@@ -36,9 +38,10 @@ func init() {
 			"(3) the stamp given to the memtable is the very number the log assigned; (4) WAL pointer discipline — Manager.wal is accessed atomically on the write path; (5) the retry wrapper's decision table (one call on success or on another error, an error after exhausted retries, re-run only on errors every Append* returns before any effect); (6) immutable memtables leave the pool (the read path) only into the flush path; (7) shared with C08: the sequence counter is handed over to the new log at rotation (a write acknowledged after a flush is never shadowed by an older version with a higher stamp). " +
 			"(8) every Append* reads the closed/rotating status while WAL.mu is held. " +
 			"Added after blind round 6: cross-listed: write-ahead (the memtable insert is dominated by the success edge of the log append in Put, Delete and ApplyBatch) and entry-copies (newEntry copies key and value). " +
-			"Added after blind round 7: GetNextSequence answers with the counter in every state (the rotation asks a log it has just marked rotating); SkipList.Find's selection table cross-listed (ties between equal sequence numbers).",
+			"Added after blind round 7: GetNextSequence answers with the counter in every state (the rotation asks a log it has just marked rotating); SkipList.Find's selection table cross-listed (ties between equal sequence numbers). " +
+			"Added after blind round 8: every exit of MemTablePool.Put/Delete passes MemTable.Put/Delete (no 'redundant write' shortcut in the pool).",
 		NotDecided: "everything else: real-time order, stale reads across rotation, all schedules with background flush/compaction.",
-		Rules:      []func(*Ctx, *Reporter){ruleStSingleWriter, ruleStEffectOnce, ruleStStamps, ruleWalRotatingNoEffect, ruleStWalPointer, ruleLayersLeaveOnly, ruleStRotationSeqOnly, ruleWalStatusUnderLock, ruleStWriteAhead, subRules(ruleMemImmutableFields, "entry-copies"), ruleGetNextSequenceAlwaysAnswers, subRules(ruleMemFind, "find-selection-table")},
+		Rules:      []func(*Ctx, *Reporter){ruleStSingleWriter, ruleStEffectOnce, ruleStStamps, ruleWalRotatingNoEffect, ruleStWalPointer, ruleLayersLeaveOnly, ruleStRotationSeqOnly, ruleWalStatusUnderLock, ruleStWriteAhead, subRules(ruleMemImmutableFields, "entry-copies"), ruleGetNextSequenceAlwaysAnswers, subRules(ruleMemFind, "find-selection-table"), rulePoolWritesReachTable},
 	})
 	register(&PropertyDef{
 		ID: "C08",
@@ -50,9 +53,10 @@ func init() {
 			"(6) every Append* reads the closed/rotating status while WAL.mu is held (the hand-over of the counter at rotation relies on it). " +
 			"Added after blind round 5: every entry applied by recovery is compared with the running maximum; every access to the counter (GetNextSequence included) holds WAL.mu. " +
 			"Added after blind round 6: the Append*WithSequence variants leave the counter beyond the explicit number on both branches of their update; NewManager has a log in Manager.wal before recoverFromWAL hands the recovered maximum over; Primary.lastSyncedSeq (the reported position) is assigned in the synchronous callback or under a new > old guard, never unguarded in a goroutine; retention deletes a log file only when MaxSeq < MinSequenceKeep (cross-listed from C12: the file that alone records how far the counter got). " +
-			"Added after blind round 7: GetNextSequence answers in every state; the acknowledged position of a session only moves forward (cross-listed from C13).",
+			"Added after blind round 7: GetNextSequence answers in every state; the acknowledged position of a session only moves forward (cross-listed from C13). " +
+			"Added after blind round 8: the replay rule of C02 (a replay that fails on a legal entry type sends recovery down the arm that restarts the numbering).",
 		NotDecided: "the actual numbers in a log directory after arbitrary histories; interactions between WAL retention and sequence numbers stored in SSTables.",
-		Rules:      []func(*Ctx, *Reporter){ruleWalMonotone, ruleStRotationSeqOnly, ruleStRecovery, ruleStStamps, ruleWalStatusUnderLock, ruleWalCounterUnderLock, ruleExplicitSeqBelowCounter, ruleLogExistsBeforeRecovery, ruleReportedSeqMonotone, subRules(ruleRetention, "retention-spares-current-log"), subRules(ruleReplCursorWriters, "cursor-writers"), ruleGetNextSequenceAlwaysAnswers},
+		Rules:      []func(*Ctx, *Reporter){ruleWalMonotone, ruleStRotationSeqOnly, ruleStRecovery, ruleStStamps, ruleWalStatusUnderLock, ruleWalCounterUnderLock, ruleExplicitSeqBelowCounter, ruleLogExistsBeforeRecovery, ruleReportedSeqMonotone, subRules(ruleRetention, "retention-spares-current-log"), subRules(ruleReplCursorWriters, "cursor-writers"), ruleGetNextSequenceAlwaysAnswers, ruleReplayMirrorsLiveApply},
 	})
 }
 
@@ -102,9 +106,10 @@ func init() {
 			"(7) the SSTable list is given a recency order when loaded from disk; (8) a successful transactional Put/Delete has buffered exactly that operation and pending operations leave the buffer only through Clear; immutable memtables leave the pool only into the flush path; (9) shared with C09: the buffered writer is never replaced without a flush and the fragment writer/reader agree on chunk boundaries (large values survive a reopen). " +
 			"Added after blind round 5: recovery seals a table only on a path that appends a fresh one behind it (the active table is never sealed); MemTable.Get's table; the comparator does not subtract sequence numbers; sort comparators index the sorted slice. " +
 			"Added after blind round 6: flushMemTable replaces the entry collected for a key only by a version with a greater sequence number (an older deletion marker cannot overwrite a newer put in the SSTable). " +
-			"Added after blind round 7: after every successful decodeNext the decoded key becomes the block iterator's current key before the next decode (delta base = predecessor); recovery limits and flush table cross-listed.",
+			"Added after blind round 7: after every successful decodeNext the decoded key becomes the block iterator's current key before the next decode (delta base = predecessor); recovery limits and flush table cross-listed. " +
+			"Added after blind round 8: the block fetcher accepts every block size the writer can produce (no constant cap on a failing exit).",
 		NotDecided: "that the bytes returned equal the bytes put for every program (values); block/index seek landing inside SSTables (value-level binary search — the pinned tree gets this wrong, declared under C11); effects of memtable-size configurations.",
-		Rules:      []func(*Ctx, *Reporter){ruleLayerOrder, ruleTombstoneShortCircuit, ruleMemComparator, ruleMemFind, ruleMemInsert, ruleFlushRules, ruleStStamps, ruleEmptyNotDeleted, ruleTombstoneMarker, ruleRecencyAtLoad, ruleTxOpsBuffered, ruleWalNoBufferDrop, ruleWalFragmentation, ruleSortKeysFromSortedSlice, ruleMemTableGetTable, ruleRecoveryLastTableMutable, ruleComparatorNoSubtraction, ruleFlushKeepsNewest, ruleDeltaBaseIsPredecessor, ruleRecoveryLimitsAreConfigured},
+		Rules:      []func(*Ctx, *Reporter){ruleLayerOrder, ruleTombstoneShortCircuit, ruleMemComparator, ruleMemFind, ruleMemInsert, ruleFlushRules, ruleStStamps, ruleEmptyNotDeleted, ruleTombstoneMarker, ruleRecencyAtLoad, ruleTxOpsBuffered, ruleWalNoBufferDrop, ruleWalFragmentation, ruleSortKeysFromSortedSlice, ruleMemTableGetTable, ruleRecoveryLastTableMutable, ruleComparatorNoSubtraction, ruleFlushKeepsNewest, ruleDeltaBaseIsPredecessor, ruleRecoveryLimitsAreConfigured, ruleNoCapOnBlockSize},
 	})
 	register(&PropertyDef{
 		ID: "C05",
@@ -116,9 +121,10 @@ func init() {
 			"(5) consumers — Scan/TxScan send only on the not-a-tombstone edge, stop iff limit > 0 ∧ count >= limit before emitting and count only emitted entries; " +
 			"(6) memtable iterators skip nodes invisible in their snapshot in Next/Seek/SeekToFirst; (7) transaction scans overlay the buffer as source 0, bounded like the storage range. " +
 			"Added after blind round 6: HierarchicalIterator.Seek/SeekToFirst/SeekToLast position EVERY child (loop over all of h.iterators without early exit, call on every iteration, passed by every exit); IteratorAdapter.SeekToLast re-seeks to the last key it saw, so that it lands on the newest version of the greatest key. " +
-			"Added after blind round 7: the scan-sources rule of C04, including the loop bounds; the iterator adapters' Seek always passes the wrapped iterator's Seek with the caller's target.",
+			"Added after blind round 7: the scan-sources rule of C04, including the loop bounds; the iterator adapters' Seek always passes the wrapped iterator's Seek with the caller's target. " +
+			"Added after blind round 8: the buffer-seek rule; sstable.Iterator positions its index cursor before reading it in seekToFirst/SeekToLast/Seek; FilteredIterator.SeekToLast's fallback scan runs to the end of the inner iterator; the merge-next rule of C03.",
 		NotDecided: "exactness of the key set for all data sets, seek landing inside SSTable blocks (see C11), scans concurrent with writers beyond the snapshot rule.",
-		Rules:      []func(*Ctx, *Reporter){ruleSourceOrder, ruleMergePolicy, ruleBounds, ruleFilter, ruleScanConsumers, ruleMemVisibility, ruleTxOwnWrites, ruleCompositePositionsEveryChild, ruleMemSeekToLastNewest, ruleScanSourcesComplete, ruleAdapterSeekAlwaysSeeks},
+		Rules:      []func(*Ctx, *Reporter){ruleSourceOrder, ruleMergePolicy, ruleBounds, ruleFilter, ruleScanConsumers, ruleMemVisibility, ruleTxOwnWrites, ruleCompositePositionsEveryChild, ruleMemSeekToLastNewest, ruleScanSourcesComplete, ruleAdapterSeekAlwaysSeeks, ruleBufferSeekStateless, ruleTableIteratorRewindsIndex, ruleFilteredSeekToLastScansAll, ruleMergeNextStepsOnly},
 	})
 }
 
